@@ -18,7 +18,7 @@ func init() {
 		Explanation: "Decides ownership, change-flag shape and look-ahead guards, not the transformations' identities: R1 every buffer handed to WrapUnsafe (a zero-copy []byte->string cast) is freshly allocated in the same call tree (make, []byte(string), append on such, library result), is never stored elsewhere, the cast is the last use, and buffers received as parameters are fresh at every call site; no transformation writes through its input; " +
 			"R2 change-flag classification for each return of the registered transformations: the flag is the constant true, or false with the input returned unchanged, or a content comparison input != output, or a length comparison only when the output comes from a delete-only call (Trim*, ReplaceAll(_,_,\"\")); flags computed by helper loops are listed as not decided, except that a flag which is not a content comparison is refused when the output comes from a call that re-encodes its argument as UTF-8 (strings.Map, ToLower, ToUpper, ..., string([]rune)): such a call rewrites invalid bytes on its own; " +
 			"R3 look-ahead reads in the decoders are length-guarded (A9 shapes); R4 every registered name maps to a function and lookups are by the registered name; " +
-			"R5 multiMatch: the running value is replaced and collected together, only for a successful transformation that reported a change and under no further condition; a failing step leaves the running value untouched (also in the cached path transformArg and in the non-multiMatch executor).",
+			"R5 multiMatch: the running value is replaced and collected together, only for a successful transformation that reported a change and under no further condition; a failing step leaves the running value untouched (also in the cached path transformArg and in the non-multiMatch executor). R2 also: a change flag accumulated over a loop is only ever set to true inside the loop (back-edge values are the flag itself or true).",
 		NotDecided: []string{
 			"the defining identities (hex/base64/url round trips, md5/sha1, idempotence of trimming)",
 			"change flags computed inside helper loops (cmdLine, compressWhitespace, escapeSeqDecode, jsDecode, removeComments*, removeWhitespace, replaceComments, urlDecodeUni, urlEncode)",
@@ -180,6 +180,86 @@ func runC14(c *an.Ctx) {
 		})
 	}
 	c.MinCount("R2", "change flags classified", nFlags-nUndecided, 25)
+
+	// R2 (cont.) a change flag accumulated over a loop is monotone: inside the loop it is only ever set to true
+	// (`if x { changed = true }`), never assigned a computed value (`changed = x` forgets an earlier change as soon
+	// as x is false for a later byte).  Every bool result of a function of the package is traced back to the loop
+	// header phis it comes from; the values entering such a phi on the loop's back edges must be the phi itself
+	// or the constant true.
+	{
+		nAcc := 0
+		for _, fn := range c.P.ModFuncs {
+			if relPkg(fn) != "internal/transformations" {
+				continue
+			}
+			var heads []*ssa.Phi
+			seenV := map[ssa.Value]bool{}
+			var trace func(v ssa.Value, d int)
+			trace = func(v ssa.Value, d int) {
+				if seenV[v] || d > 10 {
+					return
+				}
+				seenV[v] = true
+				phi, ok := v.(*ssa.Phi)
+				if !ok {
+					return
+				}
+				if lp := an.InnermostLoop(phi.Block()); lp != nil && lp.Header == phi.Block() {
+					heads = append(heads, phi)
+				}
+				for _, e := range phi.Edges {
+					trace(e, d+1)
+				}
+			}
+			an.Instrs(fn, func(in ssa.Instruction) {
+				r, ok := in.(*ssa.Return)
+				if !ok {
+					return
+				}
+				for _, res := range r.Results {
+					if b, ok := res.Type().Underlying().(*types.Basic); ok && b.Kind() == types.Bool {
+						trace(res, 0)
+					}
+				}
+			})
+			for i, h := range heads {
+				lp := an.InnermostLoop(h.Block())
+				nAcc++
+				c.FuncsAnalysed[fn] = true
+				var bad []string
+				seenL := map[ssa.Value]bool{}
+				var leaf func(v ssa.Value, d int)
+				leaf = func(v ssa.Value, d int) {
+					if seenL[v] || d > 10 || v == ssa.Value(h) {
+						return
+					}
+					seenL[v] = true
+					if p2, ok := v.(*ssa.Phi); ok {
+						for _, e := range p2.Edges {
+							leaf(e, d+1)
+						}
+						return
+					}
+					if cst, ok := v.(*ssa.Const); ok && an.Expr(cst) == "true" {
+						return
+					}
+					bad = append(bad, tempName.ReplaceAllString(an.Expr(v), ""))
+				}
+				for j, e := range h.Edges {
+					if lp.Blocks[h.Block().Preds[j]] {
+						leaf(e, 0)
+					}
+				}
+				key := fmt.Sprintf("%s: accumulated flag #%d is only ever set", fn.Name(), i+1)
+				if len(bad) > 0 {
+					c.Bad("R2", key, h.Pos(), "inside the loop the flag is assigned "+strings.Join(bad, ", ")+" instead of being set to true: a later iteration can clear a change recorded by an earlier one, and the transformation reports 'unchanged' although its output differs")
+				} else {
+					c.Ok("R2", key, h.Pos(), "back-edge values are the flag itself or true")
+				}
+			}
+		}
+		c.MinCount("R2", "change flags accumulated over a loop", nAcc, 5)
+	}
 
 	// ---- R3 look-ahead reads
 	lookaheadRule(c, "R3", []string{"internal/transformations", "internal/strings"}, 40)
